@@ -5,9 +5,10 @@ from harness.c01_ndef import lens_for, T2_LAYOUTS_48, THOROUGH_ONLY
 PROPERTY = "C03"
 
 
-def t2_write(sx, S, prefix, rsv, oldlens, lens, long):
+def t2_write(sx, S, prefix, rsv, oldlens, lens, long, concrete=False):
     oldlen = sx.pick("oldlen", oldlens)
-    w = worlds.T2World(sx, S, prefix, [tuple(r) for r in rsv], oldlen, old_lt_80=long)
+    w = worlds.T2World(sx, S, prefix, [tuple(r) for r in rsv], oldlen, old_lt_80=long,
+                       symbolic_window=(0, 0) if concrete else None)
     w.long_trick = long
     n = sx.pick("n", [x for x in lens_for(w.cap, lens + ["cap+1", "cap+8"], slack=8)])
     return ndefflow.roundtrip(sx, w, n, prop="C03")
@@ -31,10 +32,11 @@ def t2_format(sx, S, prefix, rsv, oldlens, wipe):
     return ndefflow.formatflow(sx, w, wipe)
 
 
-def t1_write(sx, hr, size, prefix, rsv, oldlens, lens, long):
+def t1_write(sx, hr, size, prefix, rsv, oldlens, lens, long, concrete=False):
     oldlen = sx.pick("oldlen", oldlens)
     w = worlds.T1World(sx, tuple(hr), size, prefix, [tuple(r) for r in rsv], oldlen,
-                       old_lt_80=long, phys=512 if size == 296 else None)
+                       old_lt_80=long, phys=512 if size == 296 else None,
+                       symbolic_window=(0, 0) if concrete else None)
     w.long_trick = long
     n = sx.pick("n", [x for x in lens_for(w.cap, lens + ["cap+1", "cap+8"], slack=8)])
     return ndefflow.roundtrip(sx, w, n, prop="C03")
@@ -126,6 +128,14 @@ def partitions(tier):
                               fn="t3_write", params=dict(nbr=nbr, nbw=nbw, nmaxb=nmaxb, oldlens=[0, 17],
                                                          lens=[0, 1, 16, 17, "cap-1", "cap"],
                                                          emulated=emulated)))
+    # control TLVs whose size byte is 00h (256 reserved bytes / 256 lock bits)
+    parts.append(dict(name="t1:dyn1024:L256+M256:write", fn="t1_write",
+                      params=dict(hr=(0x12, 0x00), size=1024, prefix="LM", rsv=[(128, 32), (512, 256)],
+                                  oldlens=[0], lens=[9, 400, "cap"], long=True, concrete=True)))
+    for nm, pre, rsv in (("M256", "M", [(384, 256)]), ("L256", "L", [(384, 32)])):
+        parts.append(dict(name="t2:872:%s:write" % nm, fn="t2_write",
+                          params=dict(S=872, prefix=pre, rsv=rsv, oldlens=[0], lens=[5, 380, "cap"],
+                                      long=True, concrete=True)))
     for name, hr, size, prefix, rsv in T1:
         lens = [0, 1, 5, "cap-1", "cap"] if size == 120 else [0, 3, 254, 255, "cap"]
         if size == 296:
